@@ -130,6 +130,26 @@ var orderSpecs = []orderSpec{
 		calls: map[string]argMode{"x.Cap": noArgs, "b.bp.Put": allArgs, "x.Reset": noArgs},
 	},
 	{
+		// C07: an error of a handler ends the connection — receivePacket returns it to the read loop (after a
+		// DISCONNECT with the code for MQTT 5); a branch that swallows an error leaves the request unanswered
+		// on a connection that is still served
+		fn: "mqtt.(*Server).receivePacket", def: "receivePacketOrder",
+		calls: map[string]argMode{"s.processPacket": noArgs, "s.DisconnectClient": allArgs},
+	},
+	{
+		// the dispatch: validation before the handler, the handler's error returned, then the release of one
+		// deferred message
+		fn: "mqtt.(*Server).processPacket", def: "processPacketOrder",
+		calls: map[string]argMode{
+			"s.processConnect": noArgs, "s.processDisconnect": noArgs, "s.processPingreq": noArgs, "pk.PublishValidate": noArgs,
+			"s.processPublish": noArgs, "s.processPuback": noArgs, "s.processPubrec": noArgs, "s.processPubrel": noArgs,
+			"s.processPubcomp": noArgs, "pk.SubscribeValidate": noArgs, "s.processSubscribe": noArgs,
+			"pk.UnsubscribeValidate": noArgs, "s.processUnsubscribe": noArgs, "pk.AuthValidate": noArgs, "s.processAuth": noArgs,
+			"s.hooks.OnPacketProcessed": noArgs, "cl.State.Inflight.NextImmediate": noArgs, "cl.WritePacket": allArgs,
+			"cl.State.Inflight.Delete": allArgs, "cl.State.Inflight.DecreaseSendQuota": noArgs, "atomic.AddInt64": allArgs,
+		},
+	},
+	{
 		// C12: the in-flight store is handed out oldest first — the comparator of the sort is part of the list (a
 		// return without a call is rendered as written), as is the filter of the deferred records
 		fn: "mqtt.(*Inflight).getAll", def: "inflightGetAllOrder",
